@@ -1,11 +1,88 @@
-import CelmaVerif.Model.ProgArgs.Groups
-/- C08 — property theorems (under construction: see DESIGN.md) -/
+import CelmaVerif.Lemmas.Groups
+/-
+  C08 — evaluating through an argument group equals one handler owning all arguments.
+-/
 namespace CelmaVerif.Props.C08
-open CelmaVerif CelmaVerif.ProgArgs
+open CelmaVerif CelmaVerif.ProgArgs CelmaVerif.Keys
 
-/-- placeholder obligation replaced by the real theorems: the model's begin iterator on a one-word
-    argv is the end iterator -/
-theorem C08_begin_single (w : Word) : (It.begin [w]).isOk = true := by
-  simp [It.begin, It.mkEnd, getWord, Res.isOk]
+/-- Every rule attached inside a member handler is enforced at the end of a group evaluation: if
+    `Groups::evalArguments` returns, then for every member the mandatory/cardinality check, the
+    check for arguments still required by a `requires` constraint, and the end conditions of the
+    member's handler constraints (all-of, one-of) have passed — the three checks `endChecks` makes
+    for a stand-alone handler, on the member's own configuration and state.
+    (Pinned commit: only the first of the three was made; `fix:` 4bb8db8.) -/
+theorem C08_end_checks (cfg : Cfg) (inits : List DVal) (argMember globMember order : List Nat) (argv : List Word)
+    (ms : List (Cfg × HState)) (h : groupsEval cfg inits argMember globMember order argv = .ok ms) :
+    ∀ m ∈ ms, checkMandatoryCardinality m.1.args m.2.args = .ok () ∧
+      pendingCheckRequired m.2.pending = .ok () ∧ checkGlobals m.1.globals m.2.globals = .ok () :=
+  groupsEval_end_checks cfg inits argMember globMember order argv ms h
+
+/-- … and these are exactly the checks of stand-alone evaluation: `endChecks` of a handler returns
+    iff the same three checks pass on its configuration and state (it then only forgets the last
+    argument). -/
+theorem C08_end_checks_standalone (cfg : Cfg) (h h' : HState) :
+    endChecks cfg h = .ok h' ↔
+      h' = { h with lastArg := none } ∧ checkMandatoryCardinality cfg.args h.args = .ok () ∧
+      pendingCheckRequired h.pending = .ok () ∧ checkGlobals cfg.globals h.globals = .ok () := by
+  rw [endChecks_ok_iff, memberEndChecks_ok_iff]
+
+/-- A group with a single member that owns all arguments and all handler constraints behaves like
+    that handler alone, for every configuration, initial values and argument vector:
+    * the handler accepts with final state `h` ⇒ the group accepts with the one member in a state
+      that differs from `h` at most in the (cleared) last-argument marker — same argument states,
+      same pending constraints, same handler-constraint states;
+    * the handler throws `e` ⇒ the group throws `e` too, except that an unknown argument is reported
+      as `std::runtime_error` by `Groups` and as `std::invalid_argument` by `Handler`;
+    * (model only) an out-of-bounds access in one is one in the other.
+    Since the handler's result is one of the three, this also gives the converse directions. -/
+theorem C08_single_member (cfg : Cfg) (inits : List DVal) (argv : List Word) :
+    let g := groupsEval cfg inits (List.replicate cfg.args.length 0) (List.replicate cfg.globals.length 0) [0] argv
+    let s := evalArguments cfg (cfg.initState inits) {} argv
+    (∀ h, s = .ok h → ∃ h', g = .ok [(cfg, h')] ∧ h = { h' with lastArg := none }) ∧
+    (∀ e, s = .throw e → ∃ e', g = .throw e' ∧ (e' = e ∨ (e = .invalid_argument ∧ e' = .runtime_error))) ∧
+    (∀ w, s = .oob w → ∃ w', g = .oob w') := by
+  intro g s
+  have h := groupsEval_single cfg inits argv
+  refine ⟨?_, ?_, ?_⟩
+  · intro h0 hs; rw [show evalArguments cfg (cfg.initState inits) {} argv = s from rfl, hs] at h; exact h
+  · intro e hs; rw [show evalArguments cfg (cfg.initState inits) {} argv = s from rfl, hs] at h; exact h
+  · intro w hs; rw [show evalArguments cfg (cfg.initState inits) {} argv = s from rfl, hs] at h; exact h
+
+/-- … hence acceptance coincides -/
+theorem C08_single_member_accepts (cfg : Cfg) (inits : List DVal) (argv : List Word) :
+    (groupsEval cfg inits (List.replicate cfg.args.length 0) (List.replicate cfg.globals.length 0) [0] argv).isOk =
+    (evalArguments cfg (cfg.initState inits) {} argv).isOk := by
+  have h := groupsEval_single cfg inits argv
+  cases hs : evalArguments cfg (cfg.initState inits) {} argv with
+  | ok h0 => rw [hs] at h; obtain ⟨h', hg, _⟩ := h; rw [hg]; rfl
+  | throw e => rw [hs] at h; obtain ⟨e', hg, _⟩ := h; rw [hg]; rfl
+  | oob w => rw [hs] at h; obtain ⟨w', hg⟩ := h; rw [hg]; rfl
+
+/-! ### known finding: abbreviations are resolved per member -/
+
+/-- Witness of the recorded finding `group-abbreviation-shadows-exact`: abbreviations enabled,
+    member 0 defines `--number`, member 1 defines `--num`; `--num 3` through the group is stored in
+    `number` (member 0 is asked first and takes `num` as an abbreviation), a single handler stores it
+    in `num` (exact keys win): the two do not agree. -/
+theorem C08_finding_group_abbreviation :
+    ¬ GroupAgrees
+        (evalArguments
+          { args := [{ key := ⟨none, "number".toList⟩, kind := .int, vmode := .required, card := .unlimited },
+                     { key := ⟨none, "num".toList⟩, kind := .int, vmode := .required, card := .unlimited }],
+            abbr := true }
+          (Cfg.initState
+            { args := [{ key := ⟨none, "number".toList⟩, kind := .int, vmode := .required, card := .unlimited },
+                       { key := ⟨none, "num".toList⟩, kind := .int, vmode := .required, card := .unlimited }],
+              abbr := true } [.int 0, .int 0])
+          {} ["p".toList, "--num".toList, "3".toList])
+        (groupDests
+          { args := [{ key := ⟨none, "number".toList⟩, kind := .int, vmode := .required, card := .unlimited },
+                     { key := ⟨none, "num".toList⟩, kind := .int, vmode := .required, card := .unlimited }],
+            abbr := true } [0, 1] [0, 1] <$>
+          groupsEval
+            { args := [{ key := ⟨none, "number".toList⟩, kind := .int, vmode := .required, card := .unlimited },
+                       { key := ⟨none, "num".toList⟩, kind := .int, vmode := .required, card := .unlimited }],
+              abbr := true } [.int 0, .int 0] [0, 1] [] [0, 1] ["p".toList, "--num".toList, "3".toList]) := by
+  decide +kernel
 
 end CelmaVerif.Props.C08
